@@ -34,6 +34,7 @@ const (
 	errorInvalidCommandArgument = "%s: %w argument (%s - %s)"
 	errorUseOnlyOnce            = "%s may be used only once"
 	errorShouldBeGreaterThanInt = "%s should be greater than %d"
+	errorShouldBeLessThanInt    = "%s should be less than or equal to %d"
 )
 
 // NewErrNotSupported returns a new ErrNotSupported.
